@@ -171,35 +171,45 @@ def same_obs(a, b):
 
 def pipe_reexec(ctx, rows, bad, kf, name):
     """Re-execute rejected pipeline lines alone (fresh server, same spelling, same upstream
-    behaviour) and validate them again; returns records of the ones rejected again."""
+    behaviour), twice each, and validate them again.  A line counts as reproduced only if both
+    re-executions make the very same observation as the original and TLC rejects it again.
+    What is not reproduced is tried once more (a loaded machine has produced stray SERVFAIL
+    replies); returns the reproduced records and the number of lines left unreproduced."""
     recs = []
-    for i in bad[:150]:
+    # lines that the known finding does not explain first: the cap must never hide them
+    for i in sorted(bad, key=lambda i: (i in kf, i))[:150]:
         line, c = rows[i - 1], cfg_before(rows, i)
         recs.append({"cfg": c["cfg"], "q": line["q"], "salt": c["salt"], "epoch": c["epoch"], "text": c.get("text"),
                      "line": i, "got": line["obs"], "m": line["m"], "kf": i in kf, "lvl": "pipe"})
-    pin, pout = ctx.path(name + "_probe_in.ndjson"), ctx.path(name + "_probe_out.ndjson")
-    vlib.write_ndjson(pin, recs)
-    rc, out = ctx.go_test(DPKG, FILES, "^TestZZVerifG02PipeProbe$|^zz%s$" % name, env={
-        "VERIF_IN": pin, "VERIF_OUT": pout, "GOMAXPROCS": "2"}, timeout=900)
-    prows = vlib.read_ndjson(pout)
-    if rc != 0 or len(prows) != len(recs):
-        raise vlib.Inconclusive("G02 pipeline probe did not complete:\n" + out[-2000:])
-    again = []
-    for rec, pr in zip(recs, prows):
-        again.append({"k": "cfg", "cfg": rec["cfg"]})
-        again.append({"k": "p", "q": rec["q"], "m": pr["m"], "obs": pr["obs"]})
-    bad2, kf2 = validate_trace(ctx, again, name + "_probe_tlc.ndjson", cfg="TraceDnsRewrite.%s.cfg" % ("pprobe" if name == "g02_pipe" else "probe"))
-    out_recs = []
-    for j in bad2:
-        k = (j - 1) // 2
-        rec = recs[k]
-        rec["got2"] = again[j - 1]["obs"]
-        # reproduced = the very same observation twice more, each time alone on a fresh server
-        if not (same_obs(rec["got"], prows[k]["obs"]) and same_obs(rec["got"], prows[k]["obs2"])):
-            continue
-        rec["kf"] = rec["kf"] and j in kf2
-        out_recs.append(rec)
-    return out_recs, len(recs) - len(out_recs)
+    out_recs, todo = [], recs
+    for attempt in range(2):
+        if not todo:
+            break
+        pin, pout = ctx.path("%s_probe%d_in.ndjson" % (name, attempt)), ctx.path("%s_probe%d_out.ndjson" % (name, attempt))
+        vlib.write_ndjson(pin, todo)
+        rc, out = ctx.go_test(DPKG, FILES, "^TestZZVerifG02PipeProbe$|^zz%s%d$" % (name, attempt), env={
+            "VERIF_IN": pin, "VERIF_OUT": pout, "GOMAXPROCS": "2"}, timeout=900)
+        prows = vlib.read_ndjson(pout)
+        if rc != 0 or len(prows) != len(todo):
+            raise vlib.Inconclusive("G02 pipeline probe did not complete:\n" + out[-2000:])
+        again = []
+        for rec, pr in zip(todo, prows):
+            again.append({"k": "cfg", "cfg": rec["cfg"]})
+            again.append({"k": "p", "q": rec["q"], "m": pr["m"], "obs": pr["obs"]})
+        bad2, kf2 = validate_trace(ctx, again, "%s_probe%d_tlc.ndjson" % (name, attempt),
+                                   cfg="TraceDnsRewrite.%s.cfg" % ("pprobe" if name == "g02_pipe" else "probe"))
+        rest = []
+        for k, rec in enumerate(todo):
+            j = 2 * k + 2
+            same = same_obs(rec["got"], prows[k]["obs"]) and same_obs(rec["got"], prows[k]["obs2"])
+            if j in bad2 and same:
+                rec["got2"] = prows[k]["obs"]
+                rec["kf"] = rec["kf"] and j in kf2
+                out_recs.append(rec)
+            else:
+                rest.append(rec)
+        todo = rest
+    return out_recs, len(todo)
 
 
 def cfg_before(rows, i):
@@ -273,7 +283,7 @@ def run(ctx):
     def part_ftrace():
         tout = ctx.path("g02_ftrace.ndjson")
         rc, out = ctx.go_test(FPKG, FILES, "^TestZZVerifG02Trace$", env={
-            "VERIF_OUT": tout, "GOMAXPROCS": "1", "VERIF_G02_TRACE_CFGS": "250" if ctx.quick else "1200"}, timeout=900)
+            "VERIF_OUT": tout, "GOMAXPROCS": "1", "VERIF_G02_TRACE_CFGS": "200" if ctx.quick else "1200"}, timeout=900)
         rows = vlib.read_ndjson(tout)
         if rc != 0 or len(rows) < 100:
             parts["ftrace"] = vlib.Inconclusive("G02 trace driver did not complete:\n" + out[-3000:])
@@ -288,7 +298,7 @@ def run(ctx):
         order = list(cfgs)
         random.Random(ctx.seed + 1).shuffle(order)
         order.sort(key=lambda v: v["fam"])
-        step = 3 if ctx.quick else 7
+        step = 4 if ctx.quick else 7
         sel = order[ctx.seed % step::step]
         nsh = 2 if ctx.quick else 4
         res = [None] * nsh
@@ -308,7 +318,7 @@ def run(ctx):
 
     def part_ptrace():
         rows, summ = run_pipe(ctx, "TestZZVerifG02PipeTrace", "g02_ptrace",
-                              {"VERIF_G02_TRACE_CFGS": "250" if ctx.quick else "1500"})
+                              {"VERIF_G02_TRACE_CFGS": "200" if ctx.quick else "1500"})
         parts["ptrace"] = (rows, summ, validate_trace(ctx, rows, "g02_ptrace_tlc.ndjson", cfg="TraceDnsRewrite.ptrace.cfg"))
 
     def guarded(f, name):
@@ -365,7 +375,7 @@ def run(ctx):
     if tbad:
         try:
             recs = []
-            for i in tbad[:200]:
+            for i in sorted(tbad, key=lambda i: (i in tkf, i))[:200]:
                 line, c = trows[i - 1], cfg_before(trows, i)
                 recs.append({"kind": "cand", "id": i, "fam": "trace", "cfg": c["cfg"], "text": c.get("text"), "q": line["q"],
                              "got": line["out"], "want": [], "kf": i in tkf, "salt": c.get("salt", "")})
@@ -411,7 +421,10 @@ def run(ctx):
     if "ptrace" in parts:
         strands.append(("g02_ptrace", parts["ptrace"]))
     psample = None
+    abandoned = []
     for name, (rows, summ, (pbad, pkf)) in strands:
+        if summ.get("abandoned"):
+            abandoned.append(name)
         pipe_cfgs += summ["n"]
         for kk, vv in summ["stats"].items():
             pstats[kk] = pstats.get(kk, 0) + vv
@@ -436,6 +449,8 @@ def run(ctx):
                                                ".".join(rec["q"]["host"]), rec["q"]["qt"], json.dumps(rec["got2"]), rec["m"],
                                                json.dumps((rec.get("text") or {}).get("custom")), json.dumps((rec.get("text") or {}).get("hosts"))))
 
+    if abandoned:
+        defer(vlib.Inconclusive("pipeline driver abandoned (more than 12 questions without a reply): %s" % abandoned), "pipeline")
     if deferred:
         raise deferred[0]
 
